@@ -309,6 +309,12 @@ func c14Run(c c14Case, res *WRes) {
 				viol("C14/at_hash-wrong/"+tag+"/key="+c.Key+"/extra="+c.Extra, fmt.Sprintf("at_hash %q is not the left half of the %s-hash of the access token of the same response (%q)", ah, halg, want), want, cl)
 			}
 		}
+		if ah, present := cl["at_hash"]; present && g.at == "" && g.where == "authorization response" {
+			viol("C14/at_hash-without-access-token/"+tag+"/extra="+c.Extra, fmt.Sprintf("the ID token carries at_hash %v although no access token is delivered in the same response", ah), "absent", cl)
+		}
+		if ch, present := cl["c_hash"]; present && g.code == "" && g.where == "authorization response" {
+			viol("C14/c_hash-without-code/"+tag+"/extra="+c.Extra, fmt.Sprintf("the ID token carries c_hash %v although no code is delivered in the same response", ch), "absent", cl)
+		}
 		if g.code != "" {
 			want := c14Hash(halg, g.code)
 			if ch, _ := cl["c_hash"].(string); ch != want {
@@ -401,7 +407,7 @@ func init() {
 	}
 	registerCheck("C14", "exploration", 150*time.Second, 25*time.Minute, func(r *Run) {
 		var jobs []any
-		fullKeys := []string{"ec256a", "ec384"}
+		fullKeys := []string{"ec256a", "ec384", "ec521"}
 		if !r.Quick() {
 			fullKeys = c14Keys
 		}
